@@ -395,6 +395,8 @@ package godi
 //@        && as(result1, "*ReflectionAnalysisError").Cause == callret("reflection.Analyzer.Analyze", 0, 1)
 //@   ensures[C04,C02,C01] every_output_is_cached_under_its_registration_identity: forall c int :: 0 <= c && c < ncalls("scope.setInstance") ==> idOf(callarg("scope.setInstance", c, 1, "*Descriptor"), callarg("scope.setInstance", c, 2, "instanceKey"))
 //@   ensures[C17,C04] removed_outputs_are_not_stored: forall c int :: 0 <= c && c < ncalls("scope.setInstance") ==> !outputSkipped(old(s.rootProvider), descriptor, callarg("scope.setInstance", c, 1, "*Descriptor"))
+// what is stored for a registration is an instance: a nil output is never stored (it could not be injected, and the provider would not keep it)
+//@   ensures[C01,C04,C15] no_nil_output_is_stored: forall c int :: 0 <= c && c < ncalls("scope.setInstance") ==> callarg("scope.setInstance", c, 3) != nil
 //@   ensures[C10,C01] every_store_is_for_this_scope: (forall i int :: 0 <= i && i < ncalls("scope.setInstance") ==> callarg("scope.setInstance", i, 0) == s)
 //@        && (forall i int :: 0 <= i && i < ncalls("scope.setAliasedInstance") ==> callarg("scope.setAliasedInstance", i, 0) == s) && ncalls("scope.setAliasedInstance") <= 1
 //@   at before return#2 : assert[C15] nil_instance_stores_nothing: ncalls("scope.setInstance") == 0 && ncalls("scope.setAliasedInstance") == 0
@@ -412,21 +414,27 @@ package godi
 //@   at before return#12 : assert[C04,C01] returned_value_is_what_was_stored_for_this_registration: len(descriptor.outputs) > 0 && ownSeen ==> ownVal == primaryService
 //@   at before return#12 : assert[C10,C01] stored_values_are_result_fields: ncalls("scope.setInstance") <= len(registrations)
 //@        && (forall c int :: 0 <= c && c < ncalls("scope.setInstance") ==> (exists i int :: 0 <= i && i < len(registrations) && callarg("scope.setInstance", c, 3) == registrations[i].Value))
-//@   at before return#14 : assert[C10,C01] every_return_value_stored: forall j int :: 0 <= j && j < len(info.Returns) && !info.Returns[j].IsError && pure("Descriptor.outputForReturn", descriptor, info.Returns[j].Index) != nil && !outputSkipped(s.rootProvider, descriptor, pure("Descriptor.outputForReturn", descriptor, info.Returns[j].Index)) ==>
+//@   at before return#13 : assert[C15] nil_output_stores_nothing: ncalls("scope.setInstance") == 0 && ncalls("scope.setAliasedInstance") == 0
+//@   at before return#15 : assert[C10,C01] every_return_value_stored: forall j int :: 0 <= j && j < len(info.Returns) && !info.Returns[j].IsError && pure("Descriptor.outputForReturn", descriptor, info.Returns[j].Index) != nil && !outputSkipped(s.rootProvider, descriptor, pure("Descriptor.outputForReturn", descriptor, info.Returns[j].Index)) ==>
 //@        (exists c int :: 0 <= c && c < ncalls("scope.setInstance") && callarg("scope.setInstance", c, 3) == ext("(reflect.Value).Interface", "any", results[info.Returns[j].Index]))
-//@   at before return#14 : assert[C10] unstored_outputs_are_still_owned: forall j int :: 0 <= j && j < len(info.Returns) && !info.Returns[j].IsError ==>
+//@   at before return#15 : assert[C10] unstored_outputs_are_still_owned: forall j int :: 0 <= j && j < len(info.Returns) && !info.Returns[j].IsError ==>
 //@        (exists c int :: 0 <= c && c < ncalls("scope.setInstance") && callarg("scope.setInstance", c, 3) == ext("(reflect.Value).Interface", "any", results[info.Returns[j].Index]))
 //@        || (exists c int :: 0 <= c && c < ncalls("scope.trackOnly") && callarg("scope.trackOnly", c, 0) == s && callarg("scope.trackOnly", c, 2) == ext("(reflect.Value).Interface", "any", results[info.Returns[j].Index]))
-//@   at before return#15 : assert[C15] nil_result_stores_nothing: ncalls("scope.setInstance") == 0 && ncalls("scope.setAliasedInstance") == 0
-//@   at before return#16 : assert[C01,C02,C03,C10] single_output_stored_once: ncalls("scope.setInstance") == 0 && ncalls("scope.setAliasedInstance") == 1 && callarg("scope.setAliasedInstance", 0, 0) == s
+//@   at before return#16 : assert[C15] nil_result_stores_nothing: ncalls("scope.setInstance") == 0 && ncalls("scope.setAliasedInstance") == 0
+//@   at before return#17 : assert[C01,C02,C03,C10] single_output_stored_once: ncalls("scope.setInstance") == 0 && ncalls("scope.setAliasedInstance") == 1 && callarg("scope.setAliasedInstance", 0, 0) == s
 //@        && callarg("scope.setAliasedInstance", 0, 1) == descriptor && callarg("scope.setAliasedInstance", 0, 2) == instance && instance != nil
 //@   loop 1
+//@     invariant stored_are_instances: forall c int :: 0 <= c && c < ncalls("scope.setInstance") ==> callarg("scope.setInstance", c, 3) != nil
 //@     invariant stored_so_far: ncalls("scope.setInstance") <= idx && (forall c int :: 0 <= c && c < ncalls("scope.setInstance") ==> (exists i int :: 0 <= i && i < idx && callarg("scope.setInstance", c, 3) == registrations[i].Value))
 //@     invariant only_registered_outputs_stored: forall c int :: 0 <= c && c < ncalls("scope.setInstance") ==> !outputSkipped(s.rootProvider, descriptor, callarg("scope.setInstance", c, 1, "*Descriptor"))
 //@     invariant own_scope: forall c int :: 0 <= c && c < ncalls("scope.setInstance") ==> callarg("scope.setInstance", c, 0) == s
 //@     invariant every_output_is_cached_under_its_registration_identity: forall c int :: 0 <= c && c < ncalls("scope.setInstance") ==> idOf(callarg("scope.setInstance", c, 1, "*Descriptor"), callarg("scope.setInstance", c, 2, "instanceKey"))
 //@     invariant returned_value_is_what_was_stored_for_this_registration: len(descriptor.outputs) > 0 && ownSeen ==> ownVal == primaryService
 //@   loop 2
+//@     invariant nothing_stored_before_all_outputs_are_checked: ncalls("scope.setInstance") == 0 && ncalls("scope.setAliasedInstance") == 0 && ncalls("scope.trackOnly") == 0
+//@     invariant outputs_checked_so_far: forall j int :: 0 <= j && j < idx && !info.Returns[j].IsError ==> ext("(reflect.Value).Interface", "any", results[info.Returns[j].Index]) != nil
+//@   loop 3
+//@     invariant stored_are_instances: forall c int :: 0 <= c && c < ncalls("scope.setInstance") ==> callarg("scope.setInstance", c, 3) != nil
 //@     invariant own_scope: forall c int :: 0 <= c && c < ncalls("scope.setInstance") ==> callarg("scope.setInstance", c, 0) == s
 //@     invariant every_output_is_cached_under_its_registration_identity: forall c int :: 0 <= c && c < ncalls("scope.setInstance") ==> idOf(callarg("scope.setInstance", c, 1, "*Descriptor"), callarg("scope.setInstance", c, 2, "instanceKey"))
 //@     invariant stored_so_far: forall j int :: 0 <= j && j < idx && !info.Returns[j].IsError && pure("Descriptor.outputForReturn", descriptor, info.Returns[j].Index) != nil && !outputSkipped(s.rootProvider, descriptor, pure("Descriptor.outputForReturn", descriptor, info.Returns[j].Index)) ==>
